@@ -39,7 +39,7 @@ CHECKS = {
         note="Reals for binary64 ('up to rounding' is the concrete 1e-12 comparison); L<=5,K<=2 (quick) / L<=8,K<=3; np.linalg.qr replaced by exact Gram-Schmidt; order->kernel dispatch in analysis.py is C05's.",
         ref="DESIGN.md section 4 C08"),
     "C09": dict(
-        text="Bounded symbolic verification of the coherence/cross-spectrum identities: SpectrumResult.__getattr__ is executed on one generic bin of symbolic statistics (zero channels included) and the solver shows coh in [0,1], |Gxy|^2<=Gxx*Gyy, GyyCx+GyyRx=Gyy, GyySx=Gyy(1-coh) and the definedness of every guarded division; the 18 kernels are executed on symbolic data to show swap symmetry, auto-in-pair equality, coh=1 for K=1 and y=g*x, and Cauchy-Schwarz (K=2 direct, K=3 via the Lagrange identity in the thorough tier). Tests check none of these identities.",
+        text="Bounded symbolic verification of the coherence/cross-spectrum identities: SpectrumResult.__getattr__ is executed on one generic bin of symbolic statistics (zero channels included) and the solver shows coh in [0,1], |Gxy|^2<=Gxx*Gyy, GyyCx+GyyRx=Gyy, GyySx=Gyy(1-coh) and the definedness of every guarded division; the 18 kernels are executed on symbolic data to show swap symmetry, auto-in-pair equality (also with the NumPy fallbacks' chunk loop crossed: 3 segments in chunks of 2), coh=1 for K=1 and y=g*x, and Cauchy-Schwarz (K=2 direct, K=3 via the Lagrange identity in the thorough tier). Tests check none of these identities.",
         note="Reals for binary64; kernel shapes L<=3,K<=2 (quick), L<=4,K<=3 (thorough); result-level obligations assume the Cauchy-Schwarz fact that the kernel-level obligations establish; numba/CUDA code generation trusted.",
         ref="DESIGN.md section 4 C09"),
     "C10": dict(
@@ -83,7 +83,7 @@ CHECKS = {
         note="np.polyfit is replaced by its least-squares contract (normal equations); cumulative_trapezoid is scipy's own code on object arrays; the Parseval clause is statistical and outside.",
         ref="DESIGN.md section 4 C19"),
     "C20": dict(
-        text="Symbolic verification of every derived attribute against the documented function of the base estimates on a generic bin (cross and auto, zero statistics included), None rules and AttributeError for unknown names; get_measurement on 3 bins with symbolic increasing f, symbolic values and symbolic query (grid value, linearity of real/imag parts, clamping, scalar/array shape); to_dataframe's column dict for every pattern of per-bin segment counts incl. all-equal and single-bin results; __getattr__ termination on bare instances for all copy/pickle probe names (finite enumeration on the real code object) copy/deepcopy/pickle as the real standard-library protocol on symbolic instances incl. histories over two results; unwrapped phases on 2-3 bins with np.unwrap encoded by its documented algorithm; the exported frame is a snapshot.",
+        text="Symbolic verification of every derived attribute against the documented function of the base estimates on a generic bin (cross and auto, zero statistics included), None rules and AttributeError for unknown names; get_measurement on 3 bins with symbolic increasing f, symbolic values and symbolic query (grid value, linearity of real/imag parts, clamping, scalar/array shape); to_dataframe's column dict for every pattern of per-bin segment counts incl. all-equal and single-bin results; __getattr__ termination on bare instances for all copy/pickle probe names (finite enumeration on the real code object) copy/deepcopy/pickle as the real standard-library protocol on symbolic instances incl. histories over two results; unwrapped phases on 2-3 bins with np.unwrap encoded by its documented algorithm, the wrapped views read after the unwrapped ones still equal those of a fresh result and stay in [-pi,pi]; the exported frame is a snapshot.",
         note="Reals for binary64; np.interp, log10, pandas by contract, atan2 by range/quadrant facts; export/protocol clauses are finite enumerations run on the clone, not solver queries (no symbolic input exists there).",
         ref="DESIGN.md section 4 C20"),
 }
